@@ -244,7 +244,9 @@ func (s *Scanner) scanString() (tok Token, pos Pos, lit string) {
 
 // ScanRegex consumes a token to find escapes
 func (s *Scanner) ScanRegex() (tok Token, pos Pos, lit string) {
-	_, pos = s.r.curr()
+	// Save the starting position of the regex.
+	_, pos = s.r.read()
+	s.r.unread()
 
 	// Start & end sentinels.
 	start, end := '/', '/'
